@@ -142,8 +142,8 @@ type Sim struct {
 	T    *testing.T
 	Case *Case
 
-	mu       sync.Mutex
-	vmu      sync.Mutex
+	mu       quietMutex
+	vmu      quietMutex
 	rootGoid int64
 	tasks    map[int64]*Task
 	all      []*Task
@@ -280,7 +280,7 @@ func Run(t *testing.T, c *Case, keepTrace bool, setup func(s *Sim), finish func(
 	s.Stats.Probes = map[string]int{}
 	s.hash = 14695981039346656037
 	s.sig = 14695981039346656037
-	func() {
+	body := func(t *testing.T) {
 		defer func() {
 			if r := recover(); r != nil {
 				msg := fmt.Sprint(r)
@@ -305,7 +305,15 @@ func Run(t *testing.T, c *Case, keepTrace bool, setup func(s *Sim), finish func(
 			s.Stats.VirtualNs = int64(time.Since(s.start))
 			s.shutdown()
 		})
-	}()
+	}
+	if RaceBuild {
+		// Under -race any report (also one about simulator or harness memory,
+		// which ./check ignores) fails the bubble's test and synctest.Test then
+		// calls FailNow: give it a sub-test to end instead of the worker loop.
+		t.Run("case", body)
+	} else {
+		body(t)
+	}
 	cur.Store(nil)
 	if s.violation == nil {
 		s.violation = s.soft
@@ -849,19 +857,34 @@ func (s *Sim) finishTask(t *Task) {
 }
 
 func (s *Sim) notify() {
+	RaceOff()
 	select {
 	case s.wake <- struct{}{}:
 	default:
 	}
+	RaceOn()
 }
+
+// quietMutex is a mutex whose lock/unlock are invisible to the race detector
+// (and so is everything between them): the simulator's own hand-offs must not
+// add happens-before edges between application goroutines (DESIGN 2.8).
+type quietMutex struct{ mu sync.Mutex }
+
+// QuietMutex is for the stubs' internal state.
+type QuietMutex = quietMutex
+
+func (q *quietMutex) Lock()   { RaceOff(); q.mu.Lock() }
+func (q *quietMutex) Unlock() { q.mu.Unlock(); RaceOn() }
 
 func (s *Sim) park(t *Task, e *entry) Outcome {
 	e.ch = t.ch
 	s.mu.Lock()
 	t.entry = e
 	s.mu.Unlock()
+	RaceOff()
 	s.notify()
 	out := <-e.ch
+	RaceOn()
 	if out.poison {
 		t.dying = true
 		if e.kind != kIO {
@@ -1332,7 +1355,7 @@ func IO(ctx context.Context, opKind, opKey string, latency time.Duration, apply 
 // Future carries a result from one task to another (a simulated RPC reply).
 type Future struct {
 	s    *Sim
-	mu   sync.Mutex
+	mu   quietMutex
 	done bool
 	node string // if set: the future fails when this node incarnation dies
 	val  any
